@@ -390,6 +390,9 @@ class EASStage(Stage):
         # two events on ONE track (same number of steps, same intermediate array shapes), ascending energy: anything an
         # event leaves behind in a per-shape scratch array reaches the next one
         self.ev += [(math.radians(20.0), 2.0, 1.0, 0.45, 0.3), (math.radians(20.0), 2.0, 10.0, 0.45, 0.3)]  # (a site with no cloud above the track in either month)
+        # two events on DIFFERENT tracks with the same number of valid steps (1350) but different numbers of steps below
+        # 30 km (618 and 534): a per-shape block that one shower fills and the next only partly overwrites shows here
+        self.ev += [(0.4853, 0.771, 1.0, 0.45, 0.3), (0.4277, 7.261, 1.0, 0.45, 0.3)]
         self.k = len(self.ev)
 
     def make(self):
